@@ -93,7 +93,9 @@ def fresh(sd=0):
     BN = pd.DataFrame({'id': ['u', 'v'], 's': pd.Series(['zz', mv], dtype=object)})      # nothing matches
     BM = pd.DataFrame({'id': ['u', 'v'], 's': pd.Series([mv, mv], dtype=object)})        # all missing
     BE = pd.DataFrame({'id': pd.Series([], dtype=object), 's': pd.Series([], dtype=object)})   # no rows
-    return dict(A=A, B=B, A2=A2, B2=B2, C=C, C2=C2, S=S, BN=BN, BM=BM, BE=BE,
+    # candidate set whose key columns have another dtype than the tables' keys (float after a merge / CSV)
+    CF = pd.DataFrame({'_id': [0, 1, 2], 'l_id': [1.0, 2.0, 3.0], 'r_id': [7.0, 9.0, 9.0]})
+    return dict(A=A, B=B, A2=A2, B2=B2, C=C, C2=C2, S=S, BN=BN, BM=BM, BE=BE, CF=CF,
                 ws_set=WhitespaceTokenizer(return_set=True), ws_bag=WhitespaceTokenizer(return_set=False),
                 qg3_set=QgramTokenizer(qval=3, return_set=True), qg2_bag=QgramTokenizer(qval=2, return_set=False))
 
@@ -103,7 +105,7 @@ def tok_fp(t):
 
 
 def state(O):
-    return (tuple((k, frame_fingerprint(O[k])) for k in ('A', 'B', 'A2', 'B2', 'C', 'C2', 'S', 'BN', 'BM', 'BE')),
+    return (tuple((k, frame_fingerprint(O[k])) for k in ('A', 'B', 'A2', 'B2', 'C', 'C2', 'S', 'BN', 'BM', 'BE', 'CF')),
             tuple((k, tok_fp(O[k])) for k in TOKS),
             tuple(tok_fp(t) for t in default_tokenizers()),
             lib_globals_fingerprint())
@@ -204,6 +206,22 @@ def build_alphabet(reduced=False):
                 add('edit_distance_join(%s,A,%s,allow_missing)' % (tn, bn),
                     (lambda tn, bn: lambda O: ssj.edit_distance_join(O['A'], O[bn], 'id', 'id', 's', 's', 0, '<=', True,
                                                                       tokenizer=O[tn], show_progress=False))(tn, bn))
+    if not reduced:
+        for Fn in ('SizeFilter', 'OverlapFilter'):
+            add('%s.filter_candset(CF float keys,A2,B2)' % Fn,
+                (lambda Fn: lambda O: (ssj.OverlapFilter(O['ws_set'], 1) if Fn == 'OverlapFilter' else
+                                       ssj.SizeFilter(O['ws_set'], 'JACCARD', 0.3)).filter_candset(
+                    O['CF'], 'l_id', 'r_id', O['A2'], O['B2'], 'id', 'id', 's', 's', show_progress=False))(Fn))
+        add('apply_matcher(CF float keys,A2,B2)',
+            lambda O: ssj.apply_matcher(O['CF'], 'l_id', 'r_id', O['A2'], O['B2'], 'id', 'id', 's', 's', O['ws_set'],
+                                        ssj.utils.simfunctions.overlap, 1, show_progress=False))
+        for tn in ('qg3_set', 'qg2_bag'):
+            for op in ('<', '='):
+                for t in (0, 0.5, 1):
+                    add('edit_distance_join(%s,%s,%r)' % (tn, op, t),
+                        (lambda tn, op, t: lambda O: ssj.edit_distance_join(
+                            O['A'], O['B'], 'id', 'id', 's', 's', t, op, False, tokenizer=O[tn],
+                            show_progress=False))(tn, op, t))
     # a second pair of tables: state left behind by a call on A/B would show up here
     add('PositionFilter.filter_tables(A2,B2,ws_set)',
         lambda O: ssj.PositionFilter(O['ws_set'], 'JACCARD', 0.3).filter_tables(
